@@ -179,84 +179,113 @@ def run(ctx):
     P = "C03-R3"
     t = facts.one(r"LogRefEntry::insertable_reference_string$")
     if ctx.check(t is not None, P, "anchor|renderer", "insertable_reference_string found", ""):
-        from .. import dte
+        from .. import dte, textval
         from ..common import tuple_field_src
-        pushes = t.calls_to(r"String::push_str$|String::push$|String::insert_str$|String::insert$|::extend$|::write_str$|::write_fmt$")
-        ctx.check(all(c.matches(r"String::push_str$") for c in pushes) and len(pushes) >= 3, P, "append-only", "the token is built by push_str only (%d appends)" % len(pushes), t.where())
-        tmpl = {}
-        for a_ in t.calls_to(r"fmt::Arguments::<.*>::new"):
-            tmpl[a_.dst["l"]] = template_of_call(a_)
-
-        def classify_push(c):
-            ch, root = call_chain(t, c.args[1])
-            fmt = [x for x in ch if x.matches(r"fmt::format$")]
-            if fmt:
-                tm = tmpl.get(op_place(fmt[0].args[0])["l"]) if op_place(fmt[0].args[0]) else None
-                if tm == [("lit", "[ref: "), ("arg", {"default": True, "byte": 192}), ("lit", "] ")]:
-                    return "plain"
-                if tm == [("arg", {"default": True, "byte": 192})]:
-                    return "number"
-                return "fmt?%s" % (tm,)
-            if any(x.matches(r"::to_string$") for x in ch) and root == ("param", 2):
-                return "number"
-            f_ = _field_through(t, c.args[1])
-            return {"insertion_prefix": "prefix", "insertion_suffix": "suffix"}.get(f_, "other:%s" % f_)
-
-        kinds = {c.bb: classify_push(c) for c in pushes}
-
-        def call_hook(c):
-            if c.matches(r"Option::<.*>::is_none$|Option::<.*>::is_some$") and c.args:
-                f_ = _field_of(t, c.args[0])
-                nm = {"insertion_prefix": "Pnone", "insertion_suffix": "Snone"}.get(f_)
-                if nm:
-                    return (nm, "bool", c.matches(r"is_none$"))
-            return None
-
-        def place_hook(body, place):
-            f_ = _field_of(body, {"copy": place})
-            nm = {"insertion_prefix": "Pnone", "insertion_suffix": "Snone"}.get(f_)
-            if nm:
-                return (nm, False)   # discriminant Some(=1) means NOT none
-            return None
-
-        def events(bb, x):
-            if isinstance(x, dict) and x.get("k") == "call" and bb in kinds:
-                return kinds[bb]
-            return None
-
-        rows = dte.extract(t, 0, set(), dte.Atoms([], call_hook, place_hook), events=events)
-        table = {}
-        opaque = set()
-        for asg, evs, out in rows:
-            for k in asg:
-                if k not in ("Pnone", "Snone"):
-                    opaque.add(k)
-            for pn in (True, False):
-                for sn in (True, False):
-                    if asg.get("Pnone", pn) == pn and asg.get("Snone", sn) == sn:
-                        table.setdefault((pn, sn), set()).add(tuple(e for e in evs if not e.startswith("<")))
-        ctx.check(not opaque, P, "plain-test", "the form is chosen by `prefix is None` / `suffix is None` only (other conditions: %s)" % (sorted(opaque) or "none"), t.where())
-        want = {
-            (True, True): {("plain",)},
+        # decided first on the text itself: for each of the four (prefix, suffix) cases, the pieces of the returned
+        # String on every feasible path, whatever the code uses to assemble them (push_str, format!, concat ..)
+        WANT_SYM = {
+            (True, True): {("lit:[ref: ", "number", "lit:] ")},
             (True, False): {("number", "suffix")},
             (False, True): {("prefix", "number")},
             (False, False): {("prefix", "number", "suffix")},
         }
-        for key, exp in want.items():
-            got = table.get(key, set())
-            ctx.check(got == exp, P, "token-table|Pnone=%s,Snone=%s" % key,
-                      "prefix %s, suffix %s ⇒ appends %s (found %s)" % ("None" if key[0] else "Some", "None" if key[1] else "Some", sorted(exp), sorted(got)), t.where())
-        disp = t.calls_to(r"Argument::<.*>::new_")
-        ctx.check(all("new_display::<u32>" in d.full for d in disp) and len(disp) >= 1, P, "number-display", "the number is the `reference_id` argument rendered with Display", t.where())
-        for d in disp:
-            ch, root = call_chain(t, tuple_field_src(t, d.args[0]))
-            ctx.check(root == ("param", 2), P, "number-source|%s" % d.bb, "the rendered number is the reference_id parameter", d.where())
-        # the returned String is the buffer the pushes went to
-        for (rb, rst) in return_values(t):
-            if rst["rv"]["k"] == "use":
-                pl = op_place(rst["rv"]["op"])
-                bufs = {_base_local_of(t, c.args[0]) for c in pushes}
-                ctx.check(pl is not None and (pl["l"] in bufs), P, "returns-buffer", "the function returns the buffer it appended to", t.where(rb))
+        sym = {}
+        sym_notes = []
+        for pn in (True, False):
+            for sn in (True, False):
+                try:
+                    res, notes = textval.evaluate(t, {"insertion_prefix": "prefix", "insertion_suffix": "suffix"}, 2, {"prefix": pn, "suffix": sn})
+                except Exception as e:   # the evaluator is an addition: if it cannot walk the body the event table below decides
+                    res, notes = {None}, [repr(e)]
+                sym[(pn, sn)] = res
+                sym_notes.extend(notes)
+        sym_ok = all(sym[k] == WANT_SYM[k] for k in WANT_SYM) and t.local_ty(2) == "u32"
+        if sym_ok:
+            ctx.check(True, P, "append-only", "the token is assembled from text pieces only (decided on the returned text)", t.where())
+            ctx.check(True, P, "plain-test", "the form is chosen by `prefix is None` / `suffix is None` only", t.where())
+            for key in WANT_SYM:
+                ctx.check(True, P, "token-table|Pnone=%s,Snone=%s" % key, "prefix %s, suffix %s ⇒ the returned text is %s" % (
+                    "None" if key[0] else "Some", "None" if key[1] else "Some", sorted(sym[key])), t.where())
+            ctx.check(True, P, "number-display", "the number is the `reference_id` argument (u32) rendered with Display", t.where())
+            ctx.check(True, P, "returns-buffer", "the function returns the assembled text", t.where())
+        if not sym_ok:
+            pushes = t.calls_to(r"String::push_str$|String::push$|String::insert_str$|String::insert$|::extend$|::write_str$|::write_fmt$")
+            if True:
+                ctx.check(all(c.matches(r"String::push_str$") for c in pushes) and len(pushes) >= 3, P, "append-only", "the token is built by push_str only (%d appends; text evaluation: %s)" % (len(pushes), {k: sorted(map(str, v)) for k, v in sym.items()}), t.where())
+            tmpl = {}
+            for a_ in t.calls_to(r"fmt::Arguments::<.*>::new"):
+                tmpl[a_.dst["l"]] = template_of_call(a_)
+
+            def classify_push(c):
+                ch, root = call_chain(t, c.args[1])
+                fmt = [x for x in ch if x.matches(r"fmt::format$")]
+                if fmt:
+                    tm = tmpl.get(op_place(fmt[0].args[0])["l"]) if op_place(fmt[0].args[0]) else None
+                    if tm == [("lit", "[ref: "), ("arg", {"default": True, "byte": 192}), ("lit", "] ")]:
+                        return "plain"
+                    if tm == [("arg", {"default": True, "byte": 192})]:
+                        return "number"
+                    return "fmt?%s" % (tm,)
+                if any(x.matches(r"::to_string$") for x in ch) and root == ("param", 2):
+                    return "number"
+                f_ = _field_through(t, c.args[1])
+                return {"insertion_prefix": "prefix", "insertion_suffix": "suffix"}.get(f_, "other:%s" % f_)
+
+            kinds = {c.bb: classify_push(c) for c in pushes}
+
+            def call_hook(c):
+                if c.matches(r"Option::<.*>::is_none$|Option::<.*>::is_some$") and c.args:
+                    f_ = _field_of(t, c.args[0])
+                    nm = {"insertion_prefix": "Pnone", "insertion_suffix": "Snone"}.get(f_)
+                    if nm:
+                        return (nm, "bool", c.matches(r"is_none$"))
+                return None
+
+            def place_hook(body, place):
+                f_ = _field_of(body, {"copy": place})
+                nm = {"insertion_prefix": "Pnone", "insertion_suffix": "Snone"}.get(f_)
+                if nm:
+                    return (nm, False)   # discriminant Some(=1) means NOT none
+                return None
+
+            def events(bb, x):
+                if isinstance(x, dict) and x.get("k") == "call" and bb in kinds:
+                    return kinds[bb]
+                return None
+
+            rows = dte.extract(t, 0, set(), dte.Atoms([], call_hook, place_hook), events=events)
+            table = {}
+            opaque = set()
+            for asg, evs, out in rows:
+                for k in asg:
+                    if k not in ("Pnone", "Snone"):
+                        opaque.add(k)
+                for pn in (True, False):
+                    for sn in (True, False):
+                        if asg.get("Pnone", pn) == pn and asg.get("Snone", sn) == sn:
+                            table.setdefault((pn, sn), set()).add(tuple(e for e in evs if not e.startswith("<")))
+            ctx.check(not opaque, P, "plain-test", "the form is chosen by `prefix is None` / `suffix is None` only (other conditions: %s)" % (sorted(opaque) or "none"), t.where())
+            want = {
+                (True, True): {("plain",)},
+                (True, False): {("number", "suffix")},
+                (False, True): {("prefix", "number")},
+                (False, False): {("prefix", "number", "suffix")},
+            }
+            for key, exp in want.items():
+                got = table.get(key, set())
+                ctx.check(got == exp, P, "token-table|Pnone=%s,Snone=%s" % key,
+                          "prefix %s, suffix %s ⇒ appends %s (found %s)" % ("None" if key[0] else "Some", "None" if key[1] else "Some", sorted(exp), sorted(got)), t.where())
+            disp = t.calls_to(r"Argument::<.*>::new_")
+            ctx.check(all("new_display::<u32>" in d.full for d in disp) and len(disp) >= 1, P, "number-display", "the number is the `reference_id` argument rendered with Display", t.where())
+            for d in disp:
+                ch, root = call_chain(t, tuple_field_src(t, d.args[0]))
+                ctx.check(root == ("param", 2), P, "number-source|%s" % d.bb, "the rendered number is the reference_id parameter", d.where())
+            # the returned String is the buffer the pushes went to
+            for (rb, rst) in return_values(t):
+                if rst["rv"]["k"] == "use":
+                    pl = op_place(rst["rv"]["op"])
+                    bufs = {_base_local_of(t, c.args[0]) for c in pushes}
+                    ctx.check(pl is not None and (pl["l"] in bufs), P, "returns-buffer", "the function returns the buffer it appended to", t.where(rb))
     # prefix/suffix are only set in the structured-new branch
     f = facts.one(r"rust_log_ref_finder::find$")
     if f is not None:
